@@ -449,7 +449,7 @@ def goal_builder(spec, pre, post):
   return (not bad), "; ".join(bad) or "rows agree with the reference"
 
 
-def check_rows(B, exp, w, nv):
+def check_rows(B, exp, w, nv, only_rows=None, common=True):
   """the obligations shared by all builders.  exp: expected rows of this thread (ref_c05.expected_*)"""
   ctx, kt = B.ctx, B.kt
   nrows = len(exp["rows"])
@@ -466,14 +466,15 @@ def check_rows(B, exp, w, nv):
   cnt = kt.atomic_total(exp["counter"], w)
   regular = Not(exp["both"]) if "both" in exp else True
   want = ite(act, nrows, 0)
-  ctx.prove(sess, "count", And(cmp("==", cnt, want), cmp("==", B.n, want)), regular, names=names, replay=B.replay("count", "count"), desc=f"{tag}: {exp['counter'][:-4]}/nefc do not advance by the number of rows MuJoCo creates for this constraint")
-  if "both" in exp:
-    ctx.reach(sess, "twin:both-limits-inside-margin", exp["both"])
-    ctx.prove(sess, "count/both-limits-active", And(cmp("==", cnt, 2), cmp("==", B.n, 2)), exp["both"], names=names, replay=B.replay("count-both", "count"), desc=f"{tag}: both limits are inside the margin: MuJoCo creates one row per side (2 rows), mujoco_warp only the nearer side")
-    inactive = exp["none"]
-  else:
-    inactive = Not(act)
-  ctx.prove(sess, "inactive-writes-nothing", Not(B.any_write()), inactive, names=names, replay=B.replay("inactive", "count"), desc=f"{tag}: an inactive / disabled constraint writes to Data")
+  if common:
+    ctx.prove(sess, "count", And(cmp("==", cnt, want), cmp("==", B.n, want)), regular, names=names, replay=B.replay("count", "count"), desc=f"{tag}: {exp['counter'][:-4]}/nefc do not advance by the number of rows MuJoCo creates for this constraint")
+    if "both" in exp:
+      ctx.reach(sess, "twin:both-limits-inside-margin", exp["both"])
+      ctx.prove(sess, "count/both-limits-active", And(cmp("==", cnt, 2), cmp("==", B.n, 2)), exp["both"], names=names, replay=B.replay("count-both", "count"), desc=f"{tag}: both limits are inside the margin: MuJoCo creates one row per side (2 rows), mujoco_warp only the nearer side")
+      inactive = exp["none"]
+    else:
+      inactive = Not(act)
+    ctx.prove(sess, "inactive-writes-nothing", Not(B.any_write()), inactive, names=names, replay=B.replay("inactive", "count"), desc=f"{tag}: an inactive / disabled constraint writes to Data")
   # exactly one _efc_row call per expected row
   if len(B.rows) != nrows:
     ctx.error(f"{tag}: {len(B.rows)} _efc_row call sites for {nrows} expected rows")
@@ -495,6 +496,8 @@ def check_rows(B, exp, w, nv):
     return nice_all
 
   for r, ((g, a), row) in enumerate(zip(B.rows, exp["rows"])):
+    if only_rows is not None and r not in only_rows:
+      continue
     er = arith("+", B.e0, r)
     rp = B.replay(f"row{r}", "rows")
     ctx.prove(sess, f"row{r}/emitted", And(g, cmp("==", a["efcid"], er), cmp("==", a["worldid"], w)), G, names=names, replay=rp, desc=f"{tag}: row {r} of an active fitting constraint is not assembled at nefc0+{r}")
@@ -751,10 +754,57 @@ def jac_summaries():
   return {"jac_dof": jac_dof, "jac_dot_dof": jac_dot_dof}
 
 
-TREE = {"_equality_connect": rf.expected_equality_connect}
+TREE = {"_equality_connect": rf.expected_equality_connect, "_equality_weld": rf.expected_equality_weld}
 
 
-def unit_rows(builder, spec, U):
+def ball_summaries(rec):
+  """math.quat_to_vel / normalize_with_norm as shared uninterpreted functions (the axis-angle extraction is library math;
+  what is decided: which qpos slots, range / margin arithmetic, sign and placement of the Jacobian, row bookkeeping)"""
+  Rs = z3.RealSort()
+
+  def quat_to_vel(it, fr, args):
+    (q,) = args
+    rec["qarg"] = list(q.c)
+    zs = [core.to_z3(x, "real") for x in q.c]
+    return core.Vec([z3.Function(f"QUAT2VEL{i}", Rs, Rs, Rs, Rs, Rs)(*zs) for i in range(3)], (3,), "f")
+
+  def normalize_with_norm(it, fr, args):
+    (x,) = args
+    zs = [core.to_z3(v, "real") for v in x.c]
+    rec["axis"] = [z3.Function(f"NORMALIZED{i}", Rs, Rs, Rs, Rs)(*zs) for i in range(3)]
+    rec["angle"] = z3.Function("NORM", Rs, Rs, Rs, Rs)(*zs)
+    return (core.Vec(rec["axis"], (3,), "f"), rec["angle"])
+
+  return {"quat_to_vel": quat_to_vel, "normalize_with_norm": normalize_with_norm}
+
+
+def unit_ball(spec, U):
+  def run(ctx):
+    from mujoco_warp._src import constraint
+
+    rec = {}
+    B = Builder(ctx, "_limit_ball", spec, U, summaries=ball_summaries(rec))
+    ctx.encode(constraint._efc_row)
+    ctx.bound(unroll=U, note=f"nv <= {U}")
+    ctx.assume("thread's own array accesses are in bounds (C17)", "loop trip counts <= unroll bound", "rows fit (overflow is C16)", "floats are exact reals", "`_efc_row` replaced by its recording contract", "math.quat_to_vel and math.normalize_with_norm are shared uninterpreted functions (axis-angle of a unit quaternion: library math, not decided here)")
+    kt, w = B.kt, B.w
+    R = rf.SymReader(kt, U)
+    exp = rf.expected_limit_ball(R, (rec["axis"], rec["angle"]))
+    check_rows(B, exp, w, kt.args["nv"])
+    # the quaternion handed to quat_to_vel is the normalised joint quaternion qpos[qposadr .. qposadr+3]
+    j = kt.pre("jnt_limited_ball_adr", kt.tid[1])
+    qa = kt.pre("jnt_qposadr", j)
+    q = [kt.pre("qpos_in", w, arith("+", qa, i)) for i in range(4)]
+    S = rf.dot(q, q)
+    side = [core.zbool(x) for x in kt.it.assumes]
+    for i in range(4):
+      qi = rec["qarg"][i]
+      prove_hard(ctx, side, f"quat-arg/{i}", And(cmp("==", arith("*", arith("*", qi, qi), S), arith("*", q[i], q[i])), cmp(">=", arith("*", qi, q[i]), 0.0)), cmp(">", S, 0.0), None, True, names={"w": w}, replay=B.replay("quat", "rows"), desc="_limit_ball: the quaternion converted to axis-angle is not the normalised joint quaternion qpos[qposadr:qposadr+4]")
+
+  return (f"rows/_limit_ball/{'sparse' if spec[0] else 'dense'}-{'newton' if spec[1] else 'cg'}", run)
+
+
+def unit_rows(builder, spec, U, only_rows=None):
   def run(ctx):
     from mujoco_warp._src import constraint, support
 
@@ -768,9 +818,10 @@ def unit_rows(builder, spec, U):
     ctx.assume("thread's own array accesses are in bounds (C17)", "loop trip counts <= unroll bound", "rows fit: nefc0 + nrows <= njmax and (sparse) nnz0 + nnz <= njmax_nnz (overflow is C16)", "floats are exact reals", "`_efc_row` is replaced by its recording contract (its body is decided by the efc_row units)")
     R = rf.SymReader(B.kt, U)
     exp = TREE[builder](R, spec[0]) if tree else SIMPLE[builder](R)
-    check_rows(B, exp, B.w, B.kt.args["nv"])
+    check_rows(B, exp, B.w, B.kt.args["nv"], only_rows=only_rows, common=only_rows is None or 0 in only_rows)
 
-  return (f"rows/{builder}/{'sparse' if spec[0] else 'dense'}-{'newton' if spec[1] else 'cg'}", run)
+  sfx = "" if only_rows is None else "/row" + "+".join(map(str, only_rows))
+  return (f"rows/{builder}/{'sparse' if spec[0] else 'dense'}-{'newton' if spec[1] else 'cg'}{sfx}", run)
 
 
 # ------------------------------------------------------------------------------------------------ units
@@ -867,9 +918,16 @@ def main(tier, seed, only=None):
   units = [("refcheck", unit_refcheck), unit_efc_row(True), unit_efc_row(False)]
   specs = [(False, True), (True, True)] + ([(True, False)] if tier == "thorough" else [])
   U = int(__import__("os").environ.get("C05_U", 3 if tier == "quick" else 4))
-  for b in list(SIMPLE) + list(TREE):
+  for b in SIMPLE:
     for sp in specs:
       units.append(unit_rows(b, sp, 2 if b == "_equality_tendon" and (sp[0] or tier == "quick") else U))
+  for sp in specs:
+    units.append(unit_ball(sp, max(U, 3)))
+    UT = 2 if sp[0] else U  # sparse connect / weld: dof chains of both bodies are enumerated (4^2 / 8^2 chain pairs)
+    for r in range(3):
+      units.append(unit_rows("_equality_connect", sp, UT, only_rows=[r]))
+    for r in range(6):
+      units.append(unit_rows("_equality_weld", sp, UT, only_rows=[r]))
   UC = 6 if tier == "quick" else 10
   for ell in (False, True):
     for adh in (False, True):
